@@ -6,12 +6,13 @@
     order_documented text_directives_are_markup_directives index_is_position
     frames_restored frames_restored_binds choice_stack_restored choose_restores_choice_stack
     outer_variables_kept lookup_after_eq_before render_restores_context
-    fuel_irrelevant_impl fuel_irrelevant_doc impl_eq_doc_partial
+    fuel_irrelevant_impl fuel_irrelevant_doc impl_eq_doc no_output_when_doc_fails no_output_when_impl_fails
     if_false_removes if_true_transparent for_eq_unrolled choose_first_match_only
     attr_form_eq_elem_form_partial replace_eq_content_strip_partial
     extract_flat_eq_tree construction_pipeline_eq_compile
 -/
 import Genshi.Lemmas.TmplSimMain
+import Genshi.Lemmas.TmplSimRev
 import Genshi.Lemmas.TmplEquiv
 import Genshi.Lemmas.TmplExtract
 namespace Genshi.Props.C04
@@ -139,30 +140,82 @@ theorem fuel_irrelevant_doc (n m : Nat) (t : DTask) (loc : Env) (st : DSt) (r : 
     (h : doc n t loc st = r) (hr : r ≠ .error .fuel) (hm : n ≤ m) : doc m t loc st = r :=
   doc_mono h hr hm
 
+/-- **Implementation = documentation.**  For every well-formed template (the `py:` attributes of
+    one element pairwise distinct, as XML demands; only def/when/otherwise/for/if/choose/with/
+    replace in element form, as the parsers demand) and all context data: the documentation
+    semantics defines the output `o` iff the implementation model (flat extraction, attach,
+    directive chain over frames and choice stack, flatten) renders exactly `o`.
+    Both directions are simulations (`sim_ok`, `sim_rev`) over the state relation
+    "scoped environment = concatenated frame stack, globals = bottom frame, innermost choose =
+    top of the choice stack, macro tables related through `attach`". -/
+theorem impl_eq_doc (ns : List TNode) (data : Env) (o : List Event) (hwf : wfNodes ns = true) :
+    (∃ n, docRender n ns data = .ok o) ↔ (∃ m, implRender m ns data = .ok o) := by
+  have hinit : SimG ⟨data, [], none⟩ (St.init data) :=
+    ⟨rfl, rfl, rfl, by intro i dm m h; simp at h⟩
+  constructor
+  · rintro ⟨n, h⟩
+    unfold docRender at h
+    simp only [bind_ok, pure, Except.pure, Except.ok.injEq] at h
+    obtain ⟨⟨o', d'⟩, h1, rfl⟩ := h
+    obtain ⟨st', ⟨m, hm⟩, _⟩ := sim_ok n (.nodes ns) [] ⟨data, [], none⟩ _ d' h1 hwf (St.init data) rfl
+      hinit trivial
+    refine ⟨m, ?_⟩
+    unfold implRender
+    simp only [taskOf] at hm
+    simp [hm, bind, Except.bind, pure, Except.pure]
+  · rintro ⟨m, h⟩
+    unfold implRender at h
+    simp only [bind_ok, pure, Except.pure, Except.ok.injEq] at h
+    obtain ⟨⟨o', st'⟩, h1, rfl⟩ := h
+    obtain ⟨d', ⟨n, hn⟩, _⟩ := sim_rev m (.nodes ns) [] ⟨data, [], none⟩ (St.init data) _ st' h1 hwf rfl
+      hinit trivial
+    refine ⟨n, ?_⟩
+    unfold docRender
+    simp [hn, bind, Except.bind, pure, Except.pure]
+
 /-
-  Full statement (kept visible):
-    for every well-formed template `ns` (py: attributes of one element pairwise distinct, only
-    def/when/otherwise/for/if/choose/with/replace in element form) and all data,
-      (∃ n, docRender n ns data = r ∧ r ≠ fuel)  ↔  (∃ m, implRender m ns data ≈ r)
-    where ≈ is equality on outputs and "both fail" on errors.
-  Proved: the direction and case below — whenever the documentation semantics defines an output,
-  the implementation model (extraction, attach, directive chain over frames and choice stack,
-  flatten) produces exactly that output.  Missing: agreement of failing renders and the converse
-  direction (needs the reverse simulation); both are exercised by the correspondence check only.
+  Failing renders.  Full statement (kept visible): the documentation semantics fails (with an
+  error other than `fuel`) iff the implementation model fails.  Proved: when one side fails the
+  other produces no output, for any amount of fuel (below).  Not proved: that the other side
+  then *terminates* with an error rather than running out of every fuel (the error classes are
+  compared by the correspondence check on every run).
 -/
-/-- search: markup -/
-theorem impl_eq_doc_partial (ns : List TNode) (data : Env) (n : Nat) (o : List Event)
-    (hwf : wfNodes ns = true) (h : docRender n ns data = .ok o) :
-    ∃ m, implRender m ns data = .ok o := by
-  unfold docRender at h
-  simp only [bind_ok, pure, Except.pure, Except.ok.injEq] at h
-  obtain ⟨⟨o', d'⟩, h1, rfl⟩ := h
-  obtain ⟨st', ⟨m, hm⟩, _⟩ := sim_ok n (.nodes ns) [] ⟨data, [], none⟩ _ d' h1 hwf (St.init data) rfl
-    ⟨rfl, rfl, rfl, by intro i dm m h; simp at h⟩ trivial
-  refine ⟨m, ?_⟩
-  unfold implRender
-  simp only [taskOf] at hm
-  simp [hm, bind, Except.bind, pure, Except.pure]
+theorem no_output_when_doc_fails (ns : List TNode) (data : Env) (hwf : wfNodes ns = true) (n : Nat)
+    (e : Err) (he : e ≠ .fuel) (h : docRender n ns data = .error e) (m : Nat) (o : List Event) :
+    implRender m ns data ≠ .ok o := by
+  intro hm
+  obtain ⟨n', hn'⟩ := (impl_eq_doc ns data o hwf).2 ⟨m, hm⟩
+  -- both answers of the documentation semantics are final: lift them to a common fuel
+  unfold docRender at h hn'
+  cases h1 : doc n (.nodes ns) [] ⟨data, [], none⟩ with
+  | error e1 =>
+    cases h2 : doc n' (.nodes ns) [] ⟨data, [], none⟩ with
+    | error e2 => simp [h2, bind, Except.bind] at hn'
+    | ok r2 =>
+      have he1 : e1 = e := by simpa [h1, bind, Except.bind] using h
+      subst he1
+      have a := doc_mono h1 (by simpa using he) (Nat.le_max_left n n')
+      have b := doc_mono h2 (by simp) (Nat.le_max_right n n')
+      rw [a] at b; cases b
+  | ok r1 => simp [h1, bind, Except.bind, pure, Except.pure] at h
+
+theorem no_output_when_impl_fails (ns : List TNode) (data : Env) (hwf : wfNodes ns = true) (m : Nat)
+    (e : Err) (he : e ≠ .fuel) (h : implRender m ns data = .error e) (n : Nat) (o : List Event) :
+    docRender n ns data ≠ .ok o := by
+  intro hn
+  obtain ⟨m', hm'⟩ := (impl_eq_doc ns data o hwf).1 ⟨n, hn⟩
+  unfold implRender at h hm'
+  cases h1 : run m (.flat (compileNodes ns)) (St.init data) with
+  | error e1 =>
+    cases h2 : run m' (.flat (compileNodes ns)) (St.init data) with
+    | error e2 => simp [h2, bind, Except.bind] at hm'
+    | ok r2 =>
+      have he1 : e1 = e := by simpa [h1, bind, Except.bind] using h
+      subst he1
+      have a := run_mono h1 (by simpa using he) (Nat.le_max_left m m')
+      have b := run_mono h2 (by simp) (Nat.le_max_right m m')
+      rw [a] at b; cases b
+  | ok r1 => simp [h1, bind, Except.bind, pure, Except.pure] at h
 
 /-! ### the documented equivalences, on the implementation model
 
@@ -338,7 +391,7 @@ example : IOk (.apply (.if_ (.lit (.atom (.int 0))) :: exPre) [.text ['t']]) exS
   if_false_removes _ _ _ _ (.atom (.int 0)) rfl rfl
 
 /-- the documentation semantics is defined (does not fail) on the running example, so
-    `impl_eq_doc_partial` applies to it -/
+    `impl_eq_doc` speaks about it -/
 example : ∃ o, docRender 100 ex1 ex1data = .ok o := ⟨_, rfl⟩
 
 end Genshi.Props.C04
